@@ -150,11 +150,18 @@ def verify_block(subject_kind):
             r.oblige(s, 'entry-names-signature-key-subject/p',
                      z3.BoolVal(isinstance(a[0], E.VObj) and a[0].ref == 'sig' and isinstance(a[1], E.VObj) and a[1].ref == 'key' and a[2] is subj))
             issues = ex_int(a[3])
-            total = bits_or(prim, sound)
             called = s.ghost['crypto_called']
-            r.oblige(s, 'disqualifying-issue-is-kept/p', z3.Implies(_failing(total), z3.And(issues == total, z3.Not(called))))
+            # the aggregate of the two checks, bit by bit (11 issue bits): stating `issues == prim | sound` through the bits keeps
+            # every obligation inside linear arithmetic with one div/mod per term
+            bit = lambda x, i: (x / (2 ** i)) % 2 == 1
+            tbit = lambda i: z3.Or(bit(prim, i), bit(sound, i))
+            failing_total = z3.Or(*[tbit(i) for i in FAILMASK])
+            for i in range(11):
+                r.oblige(s, 'disqualifying-issue-is-kept:bit-%d-of-the-entry-is-the-or-of-both-checks/p' % i, z3.Implies(failing_total, bit(issues, i) == tbit(i)))
+            r.oblige(s, 'disqualifying-issue-is-kept:nothing-beyond-the-11-issue-bits,crypto-not-consulted/p',
+                     z3.Implies(failing_total, z3.And(issues >= 0, issues < 2 ** 11, z3.Not(called))))
             r.oblige(s, 'otherwise-crypto-decides/p',
-                     z3.Implies(z3.Not(_failing(total)), z3.And(called, issues == z3.If(ok, 0, 1))))
+                     z3.Implies(z3.Not(failing_total), z3.And(called, issues == z3.If(ok, 0, 1))))
             r.oblige(s, 'never-truthy-without-crypto/p', z3.Implies(z3.Not(_failing(issues)), z3.And(called, ok)))
             if s.ghost.get('crypto_args') is not None:
                 ca = s.ghost['crypto_args']
